@@ -442,6 +442,136 @@ impl<'a> Wire<'a> {
         }
     }
 
+    /// INVALID STRING-LIKES in place: a valid encoding (built through the Param marshaller with a placeholder of the same
+    /// length) gets its string / object path / signature bytes replaced by an invalid text of every class - bad UTF-8,
+    /// embedded NUL, every class of invalid object path, every class of invalid signature (incl. a variant as dict key,
+    /// nesting 33 deep) - at top level, in a struct, an array, a variant and a dict value: all decoders must reject.
+    pub fn run_bad_strings(&mut self) {
+        let a33 = format!("{}y", "a".repeat(33));
+        let s33 = format!("{}y{}", "(".repeat(33), ")".repeat(33));
+        let d33 = format!("{}y{}", "a{s".repeat(33), "}".repeat(33));
+        let bad_sigs: Vec<Vec<u8>> = ["a{vs}", "a{vv}", "()", "a", "{ss}", "(", "a{s}", "a{sss}", "z", "(i", "a{(i)s}", "aa{vi}", "a{}", "y)", "a{sv", "(a{sv}u", "a{a{ss}u}", "e", "r", "y y", "a{ys}}"]
+            .iter()
+            .map(|x| x.as_bytes().to_vec())
+            .chain([a33.into_bytes(), s33.into_bytes(), d33.into_bytes(), vec![b'y', 0, b'y'], vec![0xc3, 0xa9]])
+            .collect();
+        let bad_paths: Vec<Vec<u8>> = ["a", "/a/", "//", "/a//b", "/a-b", "/a b", "/a.b", "a/b", "/a/b/"]
+            .iter()
+            .map(|x| x.as_bytes().to_vec())
+            .chain([vec![b'/', 0xc3, 0xa9], vec![b'/', b'a', 0, b'b'], vec![b'/', 0xff]])
+            .collect();
+        let bad_strs: Vec<Vec<u8>> = vec![vec![b'a', 0, b'b'], vec![0], vec![0xff], vec![0xc0, 0x80], vec![0xed, 0xa0, 0x80], vec![b'a', b'b', 0xe2, 0x82], vec![0xf4, 0x90, 0x80, 0x80], vec![0xf8, 0x88, 0x80, 0x80, 0x80], vec![0x80]];
+        let kinds: [(char, &Vec<Vec<u8>>); 3] = [('g', &bad_sigs), ('o', &bad_paths), ('s', &bad_strs)];
+        for (c, bads) in kinds {
+            for bad in bads.iter() {
+                let n = bad.len();
+                if n == 0 || n > 250 {
+                    continue;
+                }
+                // a valid placeholder of the same length and type, made of a byte that occurs nowhere else
+                let placeholder: Vec<u8> = match c {
+                    'g' => vec![b'd'; n],
+                    'o' => std::iter::once(b'/').chain(std::iter::repeat(b'Q').take(n - 1)).collect(),
+                    _ => vec![b'Q'; n],
+                };
+                let leaf_ty = Ty::Base(c);
+                let leaf = Val::Str(placeholder.clone());
+                let shapes: Vec<(Ty, Val)> = vec![
+                    (leaf_ty.clone(), leaf.clone()),
+                    (Ty::Struct(vec![Ty::Base('y'), leaf_ty.clone()]), Val::Struct(vec![Val::Num(7), leaf.clone()])),
+                    (Ty::Array(Box::new(leaf_ty.clone())), Val::Arr(vec![leaf.clone()])),
+                    (Ty::Variant, Val::Variant(leaf_ty.clone(), Box::new(leaf.clone()))),
+                    (Ty::Dict('y', Box::new(leaf_ty.clone())), Val::Arr(vec![Val::Struct(vec![Val::Num(1), leaf.clone()])])),
+                ];
+                for (ty, val) in shapes {
+                    let Some(param) = to_param(&ty, &val, &[]) else { continue };
+                    let bo = *self.rng.pick(&ORDERS);
+                    let phase = *self.rng.pick(&self.phases);
+                    let mut buf = vec![0u8; phase];
+                    let mut fds = Vec::new();
+                    let r = guard(|| {
+                        let mut ctx = MarshalContext { buf: &mut buf, fds: &mut fds, byteorder: bo };
+                        rustbus::wire::marshal::container::marshal_param(&param, &mut ctx)
+                    });
+                    if !matches!(r, Ok(Ok(()))) {
+                        continue;
+                    }
+                    // replace the (single) occurrence of the placeholder text
+                    let hits: Vec<usize> = (phase..buf.len().saturating_sub(n) + 1).filter(|i| buf[*i..*i + n] == placeholder[..]).collect();
+                    let at = match (c, hits.as_slice()) {
+                        (_, [one]) => *one,
+                        // a signature placeholder "dddd" inside a variant also appears as ... no: the variant's own signature is "g"
+                        _ => continue,
+                    };
+                    buf[at..at + n].copy_from_slice(bad);
+                    buf.push(0x5A);
+                    let req = format!("w.dec {} {} 0 {} {}", bo_name(bo), phase, ty.sig(), hex(&buf));
+                    let v = dec_validate(bo, phase, &buf, &ty);
+                    let p = dec_param(bo, phase, &buf, &ty);
+                    if v.is_ok() || p.is_ok() {
+                        self.out.violation(&req, &format!("a value of type {} with the invalid content {:?} was accepted (validate: {}, unmarshal: {})", c, String::from_utf8_lossy(bad), v.is_ok(), p.is_ok()));
+                    }
+                    self.out.hit(&format!("bad_string_{}", c));
+                    self.dec_case(bo, phase, &ty, &buf, None, true);
+                }
+            }
+        }
+    }
+
+    /// REFERENCES: the typed API also marshals `&T`, `&&T` and containers of references (`Vec<&u64>`, `&[&f64]`,
+    /// `Vec<&String>`): they must give the bytes of the owned value (never take the raw-copy fast path over pointers).
+    pub fn run_refs(&mut self) {
+        macro_rules! elem {
+            ($t:ty) => {{
+                for _ in 0..4 {
+                    let owned: Vec<$t> = <Vec<$t> as Cat>::gen(&mut self.rng, 1);
+                    let refs: Vec<&$t> = owned.iter().collect();
+                    let refrefs: Vec<&&$t> = refs.iter().collect();
+                    let ty = <Vec<$t> as Cat>::ty();
+                    let vs = owned.to_val().show();
+                    for bo in ORDERS {
+                        let phase = *self.rng.pick(&self.phases);
+                        let mut enc = |f: &dyn Fn(&mut MarshalContext) -> Result<(), rustbus::wire::errors::MarshalError>| -> Option<Vec<u8>> {
+                            let mut buf = vec![0u8; phase];
+                            let mut fds = Vec::new();
+                            let r = guard(|| {
+                                let mut ctx = MarshalContext { buf: &mut buf, fds: &mut fds, byteorder: bo };
+                                f(&mut ctx)
+                            });
+                            if matches!(r, Ok(Ok(()))) { Some(buf[phase..].to_vec()) } else { None }
+                        };
+                        let b_owned = enc(&|ctx| owned.marshal(ctx));
+                        let variants: Vec<(&str, Option<Vec<u8>>)> = vec![
+                            ("Vec<&T>", enc(&|ctx| refs.marshal(ctx))),
+                            ("&[&T]", enc(&|ctx| refs.as_slice().marshal(ctx))),
+                            ("Vec<&&T>", enc(&|ctx| refrefs.marshal(ctx))),
+                            ("&Vec<T>", enc(&|ctx| (&owned).marshal(ctx))),
+                            ("&&[T]", enc(&|ctx| (&owned.as_slice()).marshal(ctx))),
+                        ];
+                        for (name, b) in variants {
+                            let req = format!("w.enc {} {} {} {}", bo_name(bo), phase, ty.sig(), vs);
+                            if b != b_owned {
+                                self.out.violation(&req, &format!("{} of these elements marshals to {} but the owned Vec<T> to {}", name, b.as_ref().map(|x| hex(x)).unwrap_or("refuse".into()), b_owned.as_ref().map(|x| hex(x)).unwrap_or("refuse".into())));
+                            }
+                            self.out.hit("reference_container");
+                            self.out.case(&req, &b.map(|x| hex(&x)).unwrap_or("refuse".into()), true);
+                        }
+                    }
+                }
+            }};
+        }
+        elem!(u8);
+        elem!(u16);
+        elem!(i16);
+        elem!(u32);
+        elem!(i32);
+        elem!(u64);
+        elem!(i64);
+        elem!(f64);
+        elem!(bool);
+        elem!(String);
+    }
+
     /// all single-fault corruptions of the pooled valid encodings: every byte +1, -1, +4, -4, ^0x80, :=0, :=0xFF and
     /// truncation at every position; when a message has more faults than `per_message_cap` an evenly spread random
     /// subset over the WHOLE message is taken (never just its first bytes)
@@ -672,8 +802,12 @@ pub fn run(cfg: &Cfg, mode: Mode) {
         if mode == Mode::C02 {
             w.run_unencodable(if cfg.thorough { 5000 } else { 400 });
         }
+        if mode != Mode::C03 {
+            w.run_refs();
+        }
         if mode == Mode::C03 {
             w.run_deep();
+            w.run_bad_strings();
             w.run_corruptions(if cfg.thorough { 600 } else { 160 });
             w.run_random_bytes(if cfg.thorough { 300_000 } else { 20_000 });
         }
